@@ -14,7 +14,7 @@ BOOL_OPTS = ["retain_names", "retain_coefficients", "sort_graded", "sort_reverse
              "display_inverse", "force_number_suffix"]
 
 OPS = ["construct", "add", "sub_self", "mul", "pow", "derivative", "gradient", "call_num", "call_partial", "call_staged",
-       "call_staged_none", "hessian", "divmod", "divmod_quotient", "divmod_remainder", "derivative2", "derivative_positions", "getitem",
+       "call_staged_none", "hessian", "divmod", "divmod_quotient", "divmod_remainder", "derivative2", "derivative_positions", "construct_mixed_dtypes", "getitem",
        "align", "pickle", "sum", "concatenate", "where", "astype", "isconstant_tonumpy", "equal", "clean"]
 
 
@@ -92,6 +92,13 @@ def run_op(op, a, b, numpoly):
         x = numpoly.variable(3)
         p = a * b + 2 * x[0] + x[0] * x[1] ** 3 * x[2] + 5 * x[1] ** 2 * x[2] ** 2
         return numpoly.derivative(p, 0, 1)
+    if op == "construct_mixed_dtypes":
+        # coefficient arrays of different dtypes in one call, an all-zero integer term first: whether that term is pruned
+        # (retain_coefficients) must not decide the dtype, let alone the values, of the result
+        shape = a.shape
+        zero = numpy.zeros(shape, dtype="int64")
+        half = numpy.full(shape, 1.5)
+        return numpoly.polynomial_from_attributes([[1], [0], [2]], [zero, half, numpy.ones(shape, dtype="int64")])
     if op == "getitem":
         return a[..., None][..., 0]
     if op == "align":
